@@ -340,8 +340,16 @@ def floors(tier: str) -> dict[str, int]:
 
 
 def run_shard(spec: dict[str, Any], ctx: Ctx) -> None:
+    from ..core import CaseBudget
+    from ..core import case_budget
+
     for j in range(spec["per"]):
-        run_case(ctx, f"{spec['seed']}:{spec['i']}", j, spec["tier"])
+        try:
+            with case_budget(120):
+                run_case(ctx, f"{spec['seed']}:{spec['i']}", j, spec["tier"])
+        except CaseBudget:
+            # a program whose loops feed on their own growing output: skipped, never judged
+            ctx.count("cases_skipped:wall-clock-watchdog")
 
 
 def replay(wit: dict[str, Any], ctx: Ctx) -> None:
